@@ -41,12 +41,16 @@ func (s *Slot) Check(ctx *base.EntryContext) *base.TokenResult {
 		return result
 	}
 
-	filterNodes, outlierNodes, halfOpenNodes := checkAllNodes(ctx)
+	rule, nodeBreaks := getRuleAndNodeBreakersOfResource(resource)
+	if rule == nil {
+		// no outlier rule for the resource (any more): nothing to filter
+		return result
+	}
+	filterNodes, outlierNodes, halfOpenNodes := checkAllNodes(ctx, rule, nodeBreaks)
 	result.SetFilterNodes(filterNodes)
 	result.SetHalfOpenNodes(halfOpenNodes)
 
 	if len(outlierNodes) != 0 {
-		rule := getOutlierRuleOfResource(resource)
 		if rule.EnableActiveRecovery && len(retryerCh) < capacity {
 			retryerCh <- task{outlierNodes, resource}
 		}
@@ -57,10 +61,7 @@ func (s *Slot) Check(ctx *base.EntryContext) *base.TokenResult {
 	return result
 }
 
-func checkAllNodes(ctx *base.EntryContext) (filters []string, outliers []string, halfs []string) {
-	resource := ctx.Resource.Name()
-	nodeBreaks := getNodeBreakersOfResource(resource)
-	rule := getOutlierRuleOfResource(resource)
+func checkAllNodes(ctx *base.EntryContext, rule *Rule, nodeBreaks map[string]circuitbreaker.CircuitBreaker) (filters []string, outliers []string, halfs []string) {
 	nodeCount := len(nodeBreaks)
 	for address, breaker := range nodeBreaks {
 		if breaker.TryPass(ctx) {
